@@ -22,18 +22,15 @@ package dsd
 //@   ensures err == nil ==> hasVarint(data) && read == termL(data) + 1 && read < len(data) && uint64(format) == dec(data, read)
 //@   ensures err != nil ==> format == 0 && read == 0
 
-// Load writes only into the object graph reachable from t; the input bytes are
-// left untouched (decoding targets do not alias the input).
+// Load writes only into the object graph reachable from t (assumed of every codec).
 //@ func Load
-//@   modifies *
-//@   ensures elems(data) == old(elems(data))
-//@   ensures err == nil ==> hasVarint(data) && dec(data, termL(data) + 1) <= 255
-//@   ensures err == nil && isSer(uint8(dec(data, termL(data) + 1))) ==> uint64(format) == dec(data, termL(data) + 1)
-//@   ensures !hasVarint(data) ==> err != nil
+//@   modifies pointee(t)
+//@   ensures err == nil ==> old(hasVarint(data) && dec(data, termL(data) + 1) <= 255)
+//@   ensures err == nil && old(isSer(uint8(dec(data, termL(data) + 1)))) ==> uint64(format) == old(dec(data, termL(data) + 1))
+//@   ensures !old(hasVarint(data)) ==> err != nil
 
 //@ func DecompressAndLoad
-//@   modifies *
-//@   ensures elems(data) == old(elems(data))
+//@   modifies pointee(t)
 //@   ensures !(compression == 0 || compression == 90) ==> err != nil
 
 // decoders do not modify their input (assumed for every GenCodeCompatible implementation)
@@ -43,8 +40,7 @@ package dsd
 //@   ensures elems(buf) == old(elems(buf))
 
 //@ func LoadAsFormat
-//@   modifies *
-//@   ensures elems(data) == old(elems(data))
+//@   modifies pointee(t)
 //@   ensures !isSer(format) || format == 1 ==> err != nil
 //@   at call json.Unmarshal assert format == 74
 //@   at call yaml.Unmarshal assert format == 89
